@@ -236,6 +236,38 @@ def variant_sets(ctx: Ctx, fn: FunctionInfo, g: CFG, loop: ast.While, consuming:
     return V, E, why
 
 
+def weak_variants(fn: FunctionInfo, g: CFG, loop: ast.While, V: list[int]) -> list[int]:
+    """steps that move a quantity the guard depends on by an amount the analysis cannot bound (`pos += item.width`, `rest = text[pos:]`
+    re-derived from such a cursor, a call handing the scanner / parser to a function without a summary): progress may well be made,
+    it is just not provable here"""
+    guard = {n.id for n in ast.walk(loop.test) if isinstance(n, ast.Name)} | {unparse(n) for n in ast.walk(loop.test) if isinstance(n, ast.Attribute)}
+    feeds = set(guard)
+    for _ in range(2):
+        for n in walk_no_nested(fn.node):
+            if isinstance(n, ast.Assign) and len(n.targets) == 1 and unparse(n.targets[0]) in feeds:
+                feeds |= {x.id for x in ast.walk(n.value) if isinstance(x, ast.Name)} | {unparse(x) for x in ast.walk(n.value) if isinstance(x, ast.Attribute)}
+    W: list[int] = []
+    inside = {id(x) for st_ in loop.body for x in ast.walk(st_)}
+    for nid, node in g.nodes.items():
+        st = node.ast
+        if st is None or nid in V or id(st) not in inside:
+            continue
+        if isinstance(st, ast.AugAssign) and isinstance(st.op, (ast.Add, ast.Sub)) and unparse(st.target) in feeds and const_int(st.value) is None:
+            # weak = the amount is opaque (a field of some object, the result of a function without a summary).  A step of known size
+            # that the guard does not turn into an exit (`k += 1` under `k != n`) or an arithmetic amount that can be 0
+            # (`min(C, len(b) - k - 1)`) is not weak: it is no variant.
+            amount: ast.AST = st.value
+            if isinstance(amount, ast.Name):
+                defs = [n for n in walk_no_nested(loop) if isinstance(n, ast.Assign) and unparse(n.targets[0]) == amount.id]
+                if len(defs) == 1:
+                    amount = defs[0].value
+            opaque = any((isinstance(x, ast.Attribute) and not unparse(x).startswith("self.")) or
+                         (isinstance(x, ast.Call) and (call_name(x) or "") not in ("len", "min", "max", "abs", "int")) for x in ast.walk(amount)) or isinstance(amount, ast.Name)
+            if opaque:
+                W.append(nid)
+    return W
+
+
 def r1_progress(ctx: Ctx) -> None:
     consuming = consuming_parser_functions(ctx)
     ctx.note(f"parser functions that always consume a token: {sorted(consuming)}")
@@ -270,6 +302,12 @@ def r1_progress(ctx: Ctx) -> None:
             outside = [nid for nid, n in g.nodes.items() if nid != head and (n.ast is None or id(n.ast) not in inside)]
             reach = g.reachable(starts, blocked=list(V) + outside, blocked_edges=E, labels_excluded=["exc"])
             ok = head not in reach
+            if not ok:
+                W = weak_variants(fn, g, lp, V)
+                if W and head not in g.reachable(starts, blocked=list(V) + W + outside, blocked_edges=E, labels_excluded=["exc"]):
+                    ctx.errors.append(f"{ctx.current_rule}: {construct}: every trip round the loop passes `{unparse(g.nodes[W[0]].ast)[:40]}`, whose step the analysis "
+                                      "cannot bound from below; progress is not decided")
+                    continue
             ctx.check(ok, construct + ":progress",
                       ("every trip round the loop passes a variant step: " + ", ".join(sorted(set(why)))[:160]) if ok else
                       "an iteration can return to the loop test without consuming input / shrinking its variant" + (f" (variant steps seen: {sorted(set(why))})" if why else " (no variant step found)"))
